@@ -79,7 +79,8 @@ fn check_references(item_definition: &ItemDefinition, definitions: &Definitions,
   }
   if let Some(type_ref) = item_definition.type_ref() {
     if super::type_ref_to_feel_type(type_ref).is_none() {
-      if let Some(referenced_item_definition) = definitions.item_definition_by_name(type_ref) {
+      // the evaluators are registered by name, the last item definition of a name is the one that is used
+      if let Some(referenced_item_definition) = definitions.item_definitions().iter().rev().find(|v| v.name() == type_ref) {
         check_references(referenced_item_definition, definitions, length + 1)?;
       }
     }
